@@ -2,7 +2,7 @@
 
 import ast
 
-from ..astutil import call_attr, call_recv, calls_in, const_value, dotted, norm, param_names, walk_own
+from ..astutil import call_attr, call_name, call_recv, calls_in, const_value, dotted, norm, param_names, walk_own
 from ..cfg import build_cfg
 from ..rules import calling
 from ..selftest import Mutant
@@ -25,6 +25,10 @@ to_stanzas / from_stanzas.
 Added while testing against seeded changes: Also: set_conflicts / set_merge_modified cannot return without writing
 their control file; resolve() treats only `paths is None` as 'all conflicts'; every function that reads X.conflicts() and
 writes X.set_conflicts() holds one write lock on X across both (rmw-under-one-lock).
+Third round: the writers of the two control files (set_conflicts, set_merge_modified and the self.* helper they share) hand
+the file to the transport only through put_file / put_bytes (whole-file replacement when the content is complete) — no
+open_write_stream / append_* / *_non_atomic; add_conflicts uses Conflict.sort_key only inside `key=` of sorted()/sort()
+(no dictionary keyed by a projection of a conflict).
 Does not decide: rio's escaping of arbitrary unicode (bzrformats).
 """
 
@@ -235,7 +239,43 @@ def run(ctx):
                 ctx.check("rmw-under-one-lock", f"{rel}:{q}", not loose, f"{q} reads and rewrites {recv}'s conflicts under one write lock", construct="; ".join(loose), message=f"{q} reads {recv}.conflicts() and writes {recv}.set_conflicts() without holding one write lock across both ({'; '.join(loose)}): conflicts another writer stores in between are overwritten — a stored list is not read back")
     ctx.require(n_rmw >= 3, f"only {n_rmw} read-modify-write sites of the stored conflicts found (hand-confirmed: 4)")
 
+    # ---- whole-file replacement: a failed store leaves the previously stored records readable --------------------------
+    IW = "InventoryWorkingTree"
+    writers = {}
+    for q in ("set_conflicts", "set_merge_modified"):
+        f_ = repo.func(WT, f"{IW}.{q}")
+        helpers = {call_attr(c) for c in calls_in(f_) if call_recv(c) == "self" and repo.has(WT, f"{IW}.{call_attr(c)}") and any(call_recv(x) == "self._transport" for x in calls_in(repo.func(WT, f"{IW}.{call_attr(c)}")))}
+        for h in sorted(helpers | {q}):
+            writers[h] = repo.func(WT, f"{IW}.{h}")
+    ATOMIC = {"put_file", "put_bytes"}
+    n_w = 0
+    for h, f_ in sorted(writers.items()):
+        tw = [c for c in calls_in(f_) if call_recv(c) == "self._transport" and (call_attr(c) or "").startswith(("put_", "append_", "open_write", "delete", "rename", "move"))]
+        if not tw:
+            continue
+        n_w += 1
+        badw = [f"L{c.lineno}:{norm(c.func)}" for c in tw if call_attr(c) not in ATOMIC]
+        ctx.check("store-replaces-whole-file", f"{WT}:{IW}.{h}", not badw, f"{h} writes its control file only through {sorted(ATOMIC)} (the transport replaces the file when the whole content was produced)", construct="; ".join(badw), message=f"{h} writes the conflicts / merge-hashes control file through {'; '.join(badw)}: the stored file is truncated or extended before the new content is complete, so a store that fails half way (the stanzas are generated lazily) leaves a torn file in place of the records stored before — they are not read back")
+    ctx.require(n_w >= 1, f"{WT}: no writer of the conflicts / merge-hashes control files found")
+    # ---- add_conflicts merges by the conflicts' own equality, a projection is used for ordering only -----------------
+    fa = repo.func(WT, f"{IW}.add_conflicts")
+    wa = f"{WT}:{IW}.add_conflicts"
+    proj = []
+    for n in ast.walk(fa):
+        if isinstance(n, ast.Attribute) and n.attr == "sort_key" or isinstance(n, ast.Name) and n.id == "sort_key" and isinstance(n.ctx, ast.Load):
+            proj.append(n)
+    as_key = set()
+    for c in calls_in(fa):
+        for k in c.keywords:
+            if k.arg == "key" and (call_name(c) == "sorted" or call_attr(c) == "sort"):
+                as_key |= {id(x) for x in ast.walk(k.value)}
+    aliases = {norm(s_.targets[0]) for s_ in walk_own(fa) if isinstance(s_, ast.Assign) and any(isinstance(x, ast.Attribute) and x.attr == "sort_key" for x in ast.walk(s_.value))}
+    stray = [n for n in proj if id(n) not in as_key and not any(isinstance(s_, ast.Assign) and norm(s_.targets[0]) in aliases and any(x is n for x in ast.walk(s_.value)) for s_ in walk_own(fa))]
+    keyed = [n for n in ast.walk(fa) if isinstance(n, ast.DictComp) and not isinstance(n.key, ast.Name)]
+    ctx.check("add-merges-by-equality", wa, not stray and not keyed and any(call_attr(c) == "set_conflicts" for c in calls_in(fa)), "add_conflicts uses Conflict.sort_key only to order the list it stores; stored and new conflicts are merged by their own equality", construct="; ".join(f"L{n.lineno}:{norm(n)[:50]}" for n in stray + keyed), message="add_conflicts indexes the stored and the new conflicts by a projection (sort_key = path and type): two conflicts of the same kind on the same path that differ in file id, conflict_path or action collapse into one — a stored conflict is dropped and can never be listed or resolved")
+
 MUTANTS = [
+    Mutant("control file appended instead of replaced", WT, "        self._transport.put_file(\n            filename, my_file, mode=self.controldir._get_file_mode()\n        )\n", "        self._transport.append_file(\n            filename, my_file, mode=self.controldir._get_file_mode()\n        )\n", expect="store-replaces-whole-file"),
     Mutant("add_conflicts reads and writes without the tree lock", WT, "        with self.lock_tree_write():\n            conflict_set = set(self.conflicts())\n            conflict_set.update(set(new_conflicts))\n            self.set_conflicts(\n                sorted(conflict_set, key=_mod_bzr_conflicts.Conflict.sort_key)\n            )\n", "        conflict_set = set(self.conflicts())\n        conflict_set.update(set(new_conflicts))\n        self.set_conflicts(\n            sorted(conflict_set, key=_mod_bzr_conflicts.Conflict.sort_key)\n        )\n", expect="rmw-under-one-lock"),
     Mutant("empty selection means all", "breezy/conflicts.py", "        if paths is None:\n            new_conflicts = []", "        if not paths:\n            new_conflicts = []", expect="selection-respected"),
     Mutant("set_conflicts skips the write when the list compares equal", WT, "        with self.lock_tree_write():\n            self._put_rio(\"conflicts\", conflict_list.to_stanzas(), CONFLICT_HEADER_1)", "        with self.lock_tree_write():\n            if self._transport.has(\"conflicts\") and conflict_list == self.conflicts():\n                return\n            self._put_rio(\"conflicts\", conflict_list.to_stanzas(), CONFLICT_HEADER_1)", expect="persistence-unconditional"),
